@@ -301,7 +301,9 @@ fn matrix_case(cx: &mut Cx, tera: &Tera, s: &Spec, pool: &[V]) {
 fn law_string(rng: &mut Rng) -> String {
     let p = ["a", "b", "Z", " ", "  ", "\n", "\r\n", "\t", "é", "É", "日", "ж", "Ж", "ω", "-", "'", "\"", "<", ">", "&", "x y", ".", "1", "_", "\u{a0}", "😀", "ab", "ba", "\r", "ß", "ǆ", "İ", "\u{2003}", "&amp;", "0"];
     let mut o = String::new();
-    for _ in 0..rng.below(10) {
+    // mostly short; one in four long enough to cross the 21-byte inline limit of the string type well and truly
+    let n = if rng.chance(1, 4) { rng.below(30) } else { rng.below(10) };
+    for _ in 0..n {
         o += p[rng.below(p.len())];
     }
     o
